@@ -93,7 +93,7 @@ def measure(ctx, ty, dtype, per_cell):
         tn = float(torch.norm(xs[i][0:3], 2)) if ty in ("SE3", "Sim3") else 0.0
         fin = bool(torch.isfinite(Xi).all())
         e = {"chk": "exp", "ty": ty, "dt": dt, "eT": dexp(th), "eS": dexp(sg), "eP": dexp(tn),
-             "gT": bool(th > eps_f), "gS": bool(abs(sg) > eps_f), "finite": fin,
+             "gT": bool(th > eps_f), "gS": bool(abs(sg) > eps_f), "sT": bool(th < eps_f ** 0.25), "sS": bool(abs(sg) < eps_f ** 0.25), "finite": fin,
              "zero_in": all(v == 0 for v in xi), "x": xi, "cell": [meta[i][0], meta[i][1], meta[i][2]]}
         if fin:
             Mi = R.mat_of(ty, Xi.tolist())
@@ -173,7 +173,7 @@ def run(ctx):
     pypose()
     q = ctx.quick
     ctx.rule = ["TLC (LieRegimes): every magnitude cell (type x dtype x theta exponent -30..1/zero x sigma exponent x side of eps): "
-                "regimes total and exclusive, error model within tolerance outside the sim3 small-sigma band",
+                "regimes total and exclusive (incl. the series regime of repair 2cfaa17), error model within tolerance in every cell; the pinned model (suffix 0) missed it exactly in the sim3 small-sigma band and the repaired model covers that band",
                 "every cell (theta: 0, 1e-30.., eps-/eps/eps+, sqrt(eps)-/+, .., pi-1e-k, pi, pi+, 2pi-/+, 3pi, 5pi; sigma: 0, +-1e-30, "
                 "+-eps-/+, .., +-8; |tau|: 0, 1e-30, 1e-8, 1, 1e4) instantiated with random directions, Exp evaluated in one batched "
                 "call, error vs 60-digit expm per block; TLC judges tolerance and refinement of the model; distinct = cell x type x dtype"]
@@ -200,11 +200,10 @@ def run(ctx):
             for e in ev:
                 ctx.cover("%s:%s:%s:%s:%s:%s:%s" % (ty, e["dt"], e["eT"], e["eS"], e["eP"], e["gT"], e["gS"]))
                 k = "%s/%s" % (ty, e["dt"])
-                w = worst.setdefault(k, {"rot": 0, "trans_outside_band": 0, "unit": 0})
+                w = worst.setdefault(k, {"rot": 0, "trans": 0, "unit": 0})
                 w["rot"] = max(w["rot"], e["err_rot"])
                 w["unit"] = max(w["unit"], e["err_unit"])
-                if not (ty == "Sim3" and e["gS"] and e["eS"] < 0):
-                    w["trans_outside_band"] = max(w["trans_outside_band"], e["err_trans"])
+                w["trans"] = max(w["trans"], e["err_trans"])
             for i in range(0, len(ev), 1):
                 traces.append({"cfg": {"spec": "LieRegimesTrace"}, "ev": ev[i:i + 1]})
             if xe:
